@@ -45,7 +45,7 @@ THEOREMS = ["JanetModel.Props.C16." + t for t in (
     "connect_ends_exactly_at_first_nonquiet_event", "connect_unaffected_by_gc", "connect_completes_during_gc",
     "accept_delivers_every_connection_once", "accept_unaffected_by_gc", "accept_loop_conserves", "accept_loop_serves_every_connection",
     "accept_loop_edge_triggered_strands", "accept_waiting_has_edge", "accept_without_init_try_strands",
-    "sendto_one_datagram_per_call", "read_all_returns_everything_before_eof",
+    "sendto_one_datagram_per_call", "read_all_returns_everything_before_eof", "connect_call_exact",
     # session 4: operations composed with the slot registry (one stream, many fibers), system-level liveness under fairness
     "shared_stream_isolation", "shared_stream_invariant", "concurrent_writer_refused", "shared_stream_write_delivers_in_order",
     "shared_stream_write_terminates_under_fairness", "shared_stream_read_in_order", "shared_stream_read_terminates_under_fairness",
@@ -61,7 +61,7 @@ CURRENT = ["JanetModel.Stream.Current." + t for t in (
     "current_source_guards_read_slot", "current_source_guards_write_slot", "current_source_registers_dgram_for_write",
     "every_op_completes_or_errors_current")]
 WRAP = "-Wl," + ",".join("--wrap=" + s for s in ("read write send recv sendto recvfrom epoll_ctl epoll_wait waitpid pipe close dup fcntl fcntl64 posix_spawn posix_spawnp "
-                                                "posix_spawn_file_actions_adddup2 posix_spawn_file_actions_addclose getsockopt accept4").split())
+                                                "posix_spawn_file_actions_adddup2 posix_spawn_file_actions_addclose getsockopt accept4 connect").split())
 QUOTA = {"quick": {"errinj": 30, "stream": 110, "shared-seq": 40, "close": 60, "contend": 24, "dgram": 36, "proc": 30},
          "thorough": {"errinj": 300, "stream": 1500, "shared-seq": 500, "close": 600, "contend": 200, "dgram": 400, "proc": 300}}
 
@@ -538,7 +538,8 @@ def net_checks(ctx, exe, drv, corpus_lines, more):
             except Exception as e:   # noqa: BLE001
                 diffs.append({"why": "model driver failed on the socket-callback cases: %s: %s" % (type(e).__name__, e)})
     try:
-        nconn, cfails, cstats = netcorr.run_conn(exe, ctx.seed)
+        nconn, cfails, cstats, cdiffs = netcorr.run_conn(exe, ctx.seed, (lambda lines: ctx.model(lines, exe=drv)) if drv else None)
+        diffs += cdiffs
     except Exception as e:   # noqa: BLE001
         nconn, cfails, cstats = 0, [("conn:harness-failed", "connection scenarios could not be run: %s: %s" % (type(e).__name__, e))], {}
     for sig, desc in cfails:
@@ -1014,7 +1015,7 @@ def replay(ctx, path):
         return ctx.finish("proof", {"evaluations": len(cases), "distinct_nontrivial": len(cases), "rule": "replay of socket-callback event sequences", "samples": r["cases"][:3]})
     if r.get("kind") == "conn":
         exe = ctx.build.harness("asan", "c16io", [os.path.join(VERIF, "harness/C16/evwrap.c")], extra_ld=[WRAP])
-        n, cfails, st = netcorr.run_conn(exe, ctx.seed)
+        n, cfails, st, _ = netcorr.run_conn(exe, ctx.seed)
         for sig, desc in cfails:
             ctx.violation(sig, {"kind": "conn", "failure": desc}, what=desc[:600])
         return ctx.finish("proof", {"evaluations": n, "distinct_nontrivial": n, "rule": "replay of the connection scenarios", "samples": [json.dumps(st)[:300]]})
